@@ -563,19 +563,31 @@ Fixpoint resolve_edits (t : tree) (l : list (list nat * edit)) : option (list (u
                    end
   end.
 
+(* compact constructors for the generated case files *)
+Definition mkp := Build_payload.
+Definition mkn (u : N) (p : payload) (g : list pgroup) : node := Build_node u p g.
+Definition mkg (u : N) (t : Z) (ps : list N) : pgroup := Build_pgroup u t ps.
+
 (* the model run on a case yields exactly the observation:
-   copy subtree, source subtree right after the copy, number of children of the target parent, source after the edits *)
+   copy subtree, source subtree right after the copy, number of children of the target parent, source and copy after the
+   edits.  An observation given as None stands for "identical to" the source before the copy (obs_src_after), the source
+   after the copy (obs_src_edited) and the copy before the edits (obs_copy_edited) respectively — the driver passes None
+   only when its two canonical snapshots are equal. *)
 Definition check_case (w : world) (sws : bool) (u : uid) (tws : bool) (p : uid) (o : opts)
            (edits : list (list nat * edit))
-           (obs_err : option err) (obs_copy obs_src_after obs_src_edited obs_copy_edited : ctree) (obs_parent_kids : nat) : bool :=
+           (obs_err : option err) (obs_copy : ctree) (obs_src_after obs_src_edited obs_copy_edited : option ctree)
+           (obs_parent_kids : nat) : bool :=
   let olds := uids (wsA w) ++ uids (wsB w) ++ pguids (wsA w) ++ pguids (wsB w) in
   match copy w sws u tws p o, obs_err with
   | Err e, Some e' => err_eqb e e'
   | Ok (w1, nu, _), None =>
-      match tfind nu (ws w1 tws), tfind u (ws w1 sws), tfind p (ws w1 tws) with
-      | Some tc, Some tsrc, Some tpar =>
+      match tfind u (ws w sws), tfind nu (ws w1 tws), tfind u (ws w1 sws), tfind p (ws w1 tws) with
+      | Some tsrc0, Some tc, Some tsrc, Some tpar =>
+          let exp_after := match obs_src_after with Some c => c | None => canon olds (heap w) tsrc0 end in
+          let exp_edited := match obs_src_edited with Some c => c | None => exp_after end in
+          let exp_cedited := match obs_copy_edited with Some c => c | None => obs_copy end in
           ctree_eqb (canon olds (heap w1) tc) obs_copy
-          && ctree_eqb (canon olds (heap w1) tsrc) obs_src_after
+          && ctree_eqb (canon olds (heap w1) tsrc) exp_after
           && Nat.eqb (length (children tpar)) obs_parent_kids
           && match resolve_edits tc edits with
              | None => false
@@ -584,13 +596,13 @@ Definition check_case (w : world) (sws : bool) (u : uid) (tws : bool) (p : uid) 
                  | Err _ => false
                  | Ok w2 =>
                      match tfind u (ws w2 sws), tfind nu (ws w2 tws) with
-                     | Some ts2, Some tc2 => ctree_eqb (canon olds (heap w2) ts2) obs_src_edited
-                                            && ctree_eqb (canon olds (heap w2) tc2) obs_copy_edited
+                     | Some ts2, Some tc2 => ctree_eqb (canon olds (heap w2) ts2) exp_edited
+                                            && ctree_eqb (canon olds (heap w2) tc2) exp_cedited
                      | _, _ => false
                      end
                  end
              end
-      | _, _, _ => false
+      | _, _, _, _ => false
       end
   | _, _ => false
   end.
